@@ -6,7 +6,7 @@ package main
 // driven with millisecond expirations; its pass is run on demand through the verif hook
 // (*ExpireWatcher).VerifSweep.  The watcher reads time.Now() directly, so the case runs in real time:
 // deadlines lie at odd multiples of 50 ms and passes at multiples of 100 ms, and a case whose measured
-// drift exceeds 30 ms is run again (up to 4 times) before it answers `unstable`.
+// drift exceeds 30 ms is run again, then with all durations stretched 3x and 6x, before it answers `unstable`.
 //
 //	xadd k=<key> d=<ms> | xdiscard k=<key> | xsleep n=<ms> | xsweep keys=<k1,k2,...>
 
@@ -62,9 +62,11 @@ var (
 
 func execExpire(c proto.Case, o *proto.Out) []string {
 	var outs []string
-	for attempt := 0; attempt < 4; attempt++ {
+	// a loaded machine: run again, then with every duration stretched (the model only sees the
+	// nominal milliseconds of the op lines)
+	for _, scale := range []int{1, 1, 3, 3, 6} {
 		var ok bool
-		outs, ok = runExpire(c)
+		outs, ok = runExpire(c, scale)
 		if ok {
 			o.Count("expire-stable")
 			break
@@ -75,7 +77,9 @@ func execExpire(c proto.Case, o *proto.Out) []string {
 	return outs
 }
 
-func runExpire(c proto.Case) ([]string, bool) {
+func runExpire(c proto.Case, scale int) ([]string, bool) {
+	unit := time.Duration(scale) * time.Millisecond
+	slack := time.Duration(30*scale) * time.Millisecond
 	xseq++
 	prefix := fmt.Sprintf("x%d:", xseq)
 	ew := lunar_context.GetExpireWatcher(xstore.Pop)
@@ -93,11 +97,11 @@ func runExpire(c proto.Case) ([]string, bool) {
 				outs[i] = "bad-op"
 				continue
 			}
-			if drift := time.Since(start) - nominal; drift > 30*time.Millisecond {
+			if drift := time.Since(start) - nominal; drift > slack {
 				stable = false
 			}
 			xstore.Set(prefix + k)
-			ew.AddKey(prefix+k, time.Duration(d)*time.Millisecond)
+			ew.AddKey(prefix+k, time.Duration(d)*unit)
 			outs[i] = "ok"
 		case "xdiscard":
 			if k == "" {
@@ -112,13 +116,13 @@ func runExpire(c proto.Case) ([]string, bool) {
 				outs[i] = "bad-op"
 				continue
 			}
-			nominal += time.Duration(n) * time.Millisecond
+			nominal += time.Duration(n) * unit
 			if rest := nominal - time.Since(start); rest > 0 {
 				time.Sleep(rest)
 			}
 			outs[i] = "ok"
 		case "xsweep":
-			if drift := time.Since(start) - nominal; drift > 30*time.Millisecond || drift < 0 {
+			if drift := time.Since(start) - nominal; drift > slack || drift < 0 {
 				stable = false
 			}
 			ew.VerifSweep()
